@@ -136,20 +136,20 @@ Proof.
       * intros [= _ <- <-]. unfold flat_parts. simpl. now rewrite app_nil_r.
 Qed.
 
-Lemma bnode_rest_raw inp : forall acc v tr rest,
-  bnode_rest inp acc = Ok v tr rest -> exists c, v = rev acc ++ c /\ inp = c ++ rest.
+Lemma bnode_rest_raw inp t : forall acc v tr rest,
+  bnode_rest inp acc t = Ok v tr rest -> exists c, v = rev acc ++ c /\ inp = c ++ rest.
 Proof.
-  induction inp as [|r0 inp IH]; intros acc v tr rest; simpl; [discriminate|].
+  induction inp as [|r0 inp IH]; intros acc v tr rest; simpl; [destruct t; [intros [= <- _ <-]; exists []; now rewrite app_nil_r|discriminate]|].
   destruct (pn_chars_nt (fst r0) || N.eqb (fst r0) 46).
   { intros H. apply IH in H as (c & -> & ->). exists (r0 :: c). simpl. rewrite <- app_assoc. auto. }
   intros [= <- _ <-]. exists []. now rewrite app_nil_r.
 Qed.
 
-Lemma open_bnode_flat us colon inp v ps rest : open_bnode us colon inp = POk v ps rest -> us :: colon :: inp = flat_parts ps ++ rest.
+Lemma open_bnode_flat us colon inp t v ps rest : open_bnode us colon inp t = POk v ps rest -> us :: colon :: inp = flat_parts ps ++ rest.
 Proof.
   unfold open_bnode. destruct inp as [|r0 inp']; [discriminate|].
   destruct (pn_chars_u_nt (fst r0) || is_digit (fst r0)); [|discriminate].
-  destruct (bnode_rest inp' [r0]) as [lab tr rest1| | |] eqn:E; try discriminate.
+  destruct (bnode_rest inp' [r0] t) as [lab tr rest1| | |] eqn:E; try discriminate.
   apply bnode_rest_raw in E as (c & -> & ->). change (rev [r0] ++ c) with (r0 :: c).
   destruct (rev (r0 :: c)) as [|lastr before] eqn:Er; [discriminate|].
   assert (Hrc : r0 :: c = rev before ++ [lastr]).
@@ -185,7 +185,7 @@ Proof.
     apply open_iri_flat in E. exists (flat_parts ps). rewrite flat_tr_app. lsolve. }
   destruct (N.eqb (fst r0) 95 && negb _).
   { destruct rest0 as [|r1 rest1]; [discriminate|]. destruct (N.eqb (fst r1) 58); [|discriminate].
-    destruct (open_bnode r0 r1 rest1) as [b ps rest'| |] eqn:E; try discriminate. intros [= _ <- <-].
+    destruct (open_bnode r0 r1 rest1 t) as [b ps rest'| |] eqn:E; try discriminate. intros [= _ <- <-].
     apply open_bnode_flat in E. exists (flat_parts ps). rewrite flat_tr_app. lsolve. }
   destruct (N.eqb (fst r0) 34 && _).
   { destruct (open_literal r0 rest0 t) as [l ps rest'| |] eqn:E; try discriminate. intros [= _ <- <-].
